@@ -12,9 +12,13 @@ import (
 	"fmt"
 	"io"
 	"os"
+	"os/exec"
 	"path/filepath"
+	"runtime"
 	"sort"
+	"strconv"
 	"strings"
+	"syscall"
 
 	raft "github.com/jmsadair/raft"
 	"verifharness/internal/gen"
@@ -615,7 +619,245 @@ func snapProgram(g *gen.G, nsnaps int, nodeCheck bool) {
 	}
 }
 
+// ---------------- kill sweep: real process deaths at every file-system call ----------------
+//
+// The crash images above are derived from before/after states and therefore assume which intermediate
+// steps an operation has. The kill sweep does not: the operation runs in a child process under
+// `strace -e inject=<file syscalls>:signal=SIGKILL:when=N`, which kills the process on entry to its
+// N-th write/rename/unlink/mkdir/truncate call, for N = 1, 2, ... until the child survives. After each
+// death the directory is reopened with the real constructors and checked against the property.
+
+const killCalls = "write,pwrite64,rename,renameat,renameat2,unlink,unlinkat,rmdir,mkdir,mkdirat,ftruncate,truncate"
+
+func childOp(op string, dir string) {
+	runtime.LockOSThread()
+	f := strings.Fields(op)
+	u := func(i int) uint64 { v, _ := strconv.ParseUint(f[i], 10, 64); return v }
+	switch f[0] {
+	case "setstate":
+		st, err := raft.NewStateStorage(dir)
+		must(err)
+		must(st.SetState(u(1), f[2]))
+	case "append", "truncate", "compact", "discard":
+		l, res := reopen(dir)
+		if res != "OK" {
+			os.Exit(3)
+		}
+		switch f[0] {
+		case "append":
+			var es []*raft.LogEntry
+			for i := uint64(0); i < u(1); i++ {
+				es = append(es, raft.NewLogEntry(l.NextIndex()+i, 9, []byte(fmt.Sprintf("batch-%d", i)), raft.OperationEntry))
+			}
+			must(l.AppendEntries(es))
+		case "truncate":
+			must(l.Truncate(u(1)))
+		case "compact":
+			must(l.Compact(u(1)))
+		case "discard":
+			must(l.DiscardEntries(u(1), u(2)))
+		}
+	case "snapshot":
+		ss, err := raft.NewSnapshotStorage(dir)
+		must(err)
+		sf, err := ss.NewSnapshotFile(u(1), u(2), []byte("conf2"))
+		must(err)
+		_, err = sf.Write(bytes.Repeat([]byte("A"), 5000))
+		must(err)
+		_, err = sf.Write(bytes.Repeat([]byte("B"), 5000))
+		must(err)
+		if f[3] == "close" {
+			must(sf.Close())
+		} else {
+			must(sf.Discard())
+		}
+	}
+	os.Exit(0)
+}
+
+var killRuns, killDeaths int
+var killUnavailable string
+
+// traceCalls runs the op to completion under strace and returns the ordered names of its file-system calls.
+func traceCalls(self, op, dir string) ([]string, bool) {
+	tf := filepath.Join(scratch, "strace.out")
+	cmd := exec.Command("strace", "-f", "-qq", "-o", tf, "-e", "trace="+killCalls, self, "-childop", op, "-dir", dir)
+	cmd.Env = append(os.Environ(), "GOMAXPROCS=1")
+	if err := cmd.Run(); err != nil {
+		killUnavailable = fmt.Sprintf("reference run of {%s} under strace failed: %v", op, err)
+		return nil, false
+	}
+	killRuns++
+	b, _ := os.ReadFile(tf)
+	os.Remove(tf)
+	var names []string
+	for _, line := range strings.Split(string(b), "\n") {
+		f := strings.Fields(line)
+		if len(f) < 2 {
+			continue
+		}
+		name := f[1]
+		if i := strings.IndexByte(name, '('); i > 0 {
+			name = name[:i]
+		} else {
+			continue
+		}
+		if strings.Contains(","+killCalls+",", ","+name+",") {
+			names = append(names, name)
+		}
+	}
+	return names, true
+}
+
+// runKilled runs the op in a child that is killed on entry to the ordinal-th call of the named system call.
+func runKilled(self, op, dir, name string, ordinal int) (died bool, ok bool) {
+	cmd := exec.Command("strace", "-f", "-qq", "-o", "/dev/null", "-e", "trace="+killCalls,
+		"-e", fmt.Sprintf("inject=%s:signal=SIGKILL:when=%d", name, ordinal), self, "-childop", op, "-dir", dir)
+	cmd.Env = append(os.Environ(), "GOMAXPROCS=1")
+	err := cmd.Run()
+	killRuns++
+	if err == nil {
+		return false, true
+	}
+	if ee, isExit := err.(*exec.ExitError); isExit {
+		if ws, isWS := ee.Sys().(syscall.WaitStatus); isWS && (ws.Signaled() || ws.ExitStatus() == 137) {
+			killDeaths++
+			return true, true
+		}
+		killUnavailable = fmt.Sprintf("child failed: %v", err)
+		return false, false
+	}
+	killUnavailable = fmt.Sprintf("strace could not be run: %v", err)
+	return false, false
+}
+
+func killSweep(g *gen.G) {
+	self, _ := os.Executable()
+	type scenario struct {
+		name    string
+		prepare func(dir string)
+		op      string
+		check   func(desc, dir string, before, after string) // reopen dir and judge
+		dump    func(dir string) string
+	}
+	logDump := func(dir string) string {
+		l, res := reopen(dir)
+		if res != "OK" {
+			return res
+		}
+		defer l.Close()
+		return dumpLog(l).S()
+	}
+	stateDump := func(dir string) string {
+		st, err := raft.NewStateStorage(dir)
+		if err != nil {
+			return "ERR " + err.Error()
+		}
+		t, v, err := st.State()
+		if err != nil {
+			return "ERR " + err.Error()
+		}
+		return fmt.Sprintf("%d,%s", t, v)
+	}
+	snapDump := func(dir string) string {
+		got, ok := readLatest("kill sweep", dir)
+		if !ok {
+			return "ERR"
+		}
+		if len(got) > 80 {
+			got = got[:40] + fmt.Sprintf("...(%d chars)", len(got))
+		}
+		return got
+	}
+	prepLog := func(dir string) {
+		l, res := reopen(dir)
+		if res != "OK" {
+			panic(res)
+		}
+		for i := uint64(1); i <= 5; i++ {
+			must(l.AppendEntry(raft.NewLogEntry(i, 1+i/3, []byte(fmt.Sprintf("entry-%d", i)), raft.OperationEntry)))
+		}
+		must(l.Close())
+	}
+	scenarios := []scenario{
+		{"SetState over an existing state file", func(dir string) {
+			st, err := raft.NewStateStorage(dir)
+			must(err)
+			must(st.SetState(5, "n1"))
+		}, "setstate 6 n2", nil, stateDump},
+		{"SetState on an empty directory", func(dir string) {}, "setstate 1 n9", nil, stateDump},
+		{"append of a 3-entry batch", prepLog, "append 3", nil, logDump},
+		{"truncate", prepLog, "truncate 3", nil, logDump},
+		{"compact", prepLog, "compact 3", nil, logDump},
+		{"discard", prepLog, "discard 9 4", nil, logDump},
+		{"compact then (in the child) truncate", func(dir string) {
+			prepLog(dir)
+			l, _ := reopen(dir)
+			must(l.Compact(2))
+			must(l.Close())
+		}, "truncate 4", nil, logDump},
+		{"snapshot write + Close next to an older snapshot", func(dir string) {
+			ss, err := raft.NewSnapshotStorage(dir)
+			must(err)
+			sf, err := ss.NewSnapshotFile(3, 1, []byte("conf1"))
+			must(err)
+			_, err = sf.Write([]byte("old snapshot"))
+			must(err)
+			must(sf.Close())
+		}, "snapshot 7 2 close", nil, snapDump},
+		{"snapshot write + Discard", func(dir string) {}, "snapshot 7 2 discard", nil, snapDump},
+	}
+	for si, sc := range scenarios {
+		base := filepath.Join(scratch, fmt.Sprintf("kill%d", si))
+		must(os.MkdirAll(base, 0o755))
+		sc.prepare(base)
+		before := sc.dump(base)
+		full := filepath.Join(scratch, fmt.Sprintf("kill%d-full", si))
+		copyTree(base, full)
+		names, ok := traceCalls(self, sc.op, full)
+		if !ok {
+			return
+		}
+		after := sc.dump(full)
+		os.RemoveAll(full)
+		seen := map[string]int{}
+		for n, name := range names {
+			seen[name]++
+			dir := filepath.Join(scratch, fmt.Sprintf("kill%d-%d", si, n))
+			copyTree(base, dir)
+			died, ok := runKilled(self, sc.op, dir, name, seen[name])
+			if !ok {
+				return
+			}
+			if !died {
+				killUnavailable = fmt.Sprintf("the child running {%s} survived an injection at %s #%d", sc.op, name, seen[name])
+				os.RemoveAll(dir)
+				continue
+			}
+			got := sc.dump(dir)
+			allowed := got == before || got == after
+			if strings.HasPrefix(sc.op, "append") && strings.HasPrefix(got, "OK") && strings.HasPrefix(after, "OK") {
+				// the completed entries followed by a prefix of the batch
+				bf, af, gf := strings.Fields(before), strings.Fields(after), strings.Fields(got)
+				allowed = len(gf) == 5 && strings.HasPrefix(af[4], gf[4]) && strings.HasPrefix(gf[4], bf[4])
+			}
+			if !allowed {
+				violate("%s kill sweep, %s: the process died on entry to its file-system call number %d (%s, of %d: %s); reopening shows {%s}; before the operation {%s}; after it {%s}",
+					map[bool]string{true: "C13", false: "C12"}[strings.HasPrefix(sc.op, "set") || strings.HasPrefix(sc.op, "snap")], sc.name, n+1, name, len(names),
+					strings.Join(names, " "), short(got), short(before), short(after))
+			}
+			g.Kinds["KILL-SWEEP(go only)"]++
+			os.RemoveAll(dir)
+		}
+		os.RemoveAll(base)
+	}
+}
+
 func main() {
+	if len(os.Args) > 2 && os.Args[1] == "-childop" {
+		childOp(os.Args[2], os.Args[4])
+		return
+	}
 	seed := flag.Int64("seed", 1, "PRNG seed")
 	nprog := flag.Int("programs", 30, "log programs")
 	plen := flag.Int("len", 12, "operations per log program")
@@ -653,14 +895,20 @@ func main() {
 			snapProgram(g, 41, false)
 		}
 	}
+	if strings.Contains(*which, "kill") {
+		killSweep(g)
+	}
 	must(g.Close())
 	var kinds []string
 	for k, v := range g.Kinds {
 		kinds = append(kinds, fmt.Sprintf("%s=%d", k, v))
 	}
 	sort.Strings(kinds)
-	fmt.Printf("DISKDIFF cases=%d log_images=%d state_images=%d snap_images=%d node_images=%d kinds=%s\n",
-		g.Cases, imagesLog, imagesState, imagesSnap, imagesNode, strings.Join(kinds, ","))
+	fmt.Printf("DISKDIFF cases=%d log_images=%d state_images=%d snap_images=%d node_images=%d kill_runs=%d kill_deaths=%d kinds=%s\n",
+		g.Cases, imagesLog, imagesState, imagesSnap, imagesNode, killRuns, killDeaths, strings.Join(kinds, ","))
+	if killUnavailable != "" {
+		fmt.Printf("NOTE kill sweep incomplete: %s\n", killUnavailable)
+	}
 	for _, v := range violations {
 		fmt.Printf("IMPL-VIOLATION %s\n", v)
 	}
